@@ -1008,8 +1008,18 @@ func doQueue(t *testing.T, run *emit.Run, p *pool, r *rand.Rand, hostile bool) {
 	cfg := emit.Pair(emit.List(feeRows), emit.Z(cf), emit.Z(sf))
 
 	mir := map[uint64]mirror{}
+	reported := map[uint64]string{} // id -> which report the keeper ACCEPTED for it (never withdrawn by any operation)
+	type forcedOp struct {
+		k  int
+		id uint64
+	}
+	var forced []forcedOp // directed tail: report BEFORE the election, then estimate, then end-block
+	var forceID uint64
 	var ids []uint64
 	pickID := func() uint64 {
+		if forceID != 0 {
+			return forceID
+		}
 		if len(ids) == 0 || r.Intn(12) == 0 {
 			return uint64(1 + r.Intn(12))
 		}
@@ -1024,6 +1034,11 @@ func doQueue(t *testing.T, run *emit.Run, p *pool, r *rand.Rand, hostile bool) {
 		k := r.Intn(100)
 		if len(ids) < 2 {
 			k = 0
+		}
+		forceID = 0
+		if len(forced) > 0 {
+			k, forceID = forced[0].k, forced[0].id
+			forced = forced[1:]
 		}
 		switch {
 		case k < 45: // put
@@ -1071,6 +1086,18 @@ func doQueue(t *testing.T, run *emit.Run, p *pool, r *rand.Rand, hostile bool) {
 			ids = append(ids, id)
 			mir[id] = mr
 			puts++
+			if (mr.kind == "slc" || mr.kind == "upl") && req && !pad && len(forced) == 0 && r.Intn(5) == 0 {
+				rk := 90 // error report
+				if r.Intn(3) == 0 {
+					rk = 80 // delivery report
+				}
+				forced = []forcedOp{{rk, id}, {50, id}, {70, 0}}
+				if r.Intn(2) == 0 { // estimate first, report between estimate and election
+					forced = []forcedOp{{50, id}, {rk, id}, {70, 0}}
+				}
+				nops += 3
+				run.Count("queue-directed", "report-before-election")
+			}
 			opS = fmt.Sprintf("OpPut %s %d %s %s", kindS, asg, emit.Bool(req), emit.Bool(pad))
 			run.Count("op", "put")
 		case k < 60:
@@ -1081,6 +1108,9 @@ func doQueue(t *testing.T, run *emit.Run, p *pool, r *rand.Rand, hostile bool) {
 				g = 0
 			case 1:
 				g = emit.U64(r)
+			}
+			if forceID != 0 {
+				g = uint64(1 + r.Intn(400000))
 			}
 			nerr := 0
 			for v := 0; v < nv; v++ {
@@ -1120,6 +1150,8 @@ func doQueue(t *testing.T, run *emit.Run, p *pool, r *rand.Rand, hostile bool) {
 			id := pickID()
 			if err := e.cons.SetMessagePublicAccessData(e.ctx, p.addrs[0], &consensustypes.MsgSetPublicAccessData{MessageID: id, QueueTypeName: qn, Data: []byte{2}, ValsetID: 1}); err != nil {
 				rejected++
+			} else if _, ok := reported[id]; !ok {
+				reported[id] = "delivery"
 			}
 			opS = fmt.Sprintf("OpPublicAccess %d", id)
 			run.Count("op", "public-access")
@@ -1127,6 +1159,8 @@ func doQueue(t *testing.T, run *emit.Run, p *pool, r *rand.Rand, hostile bool) {
 			id := pickID()
 			if err := e.cons.SetMessageErrorData(e.ctx, p.addrs[0], &consensustypes.MsgSetErrorData{MessageID: id, QueueTypeName: qn, Data: []byte{3}}); err != nil {
 				rejected++
+			} else if _, ok := reported[id]; !ok {
+				reported[id] = "error"
 			}
 			opS = fmt.Sprintf("OpError %d", id)
 			run.Count("op", "error-data")
@@ -1220,6 +1254,11 @@ func doQueue(t *testing.T, run *emit.Run, p *pool, r *rand.Rand, hostile bool) {
 				}
 				if me.pad || me.er {
 					run.Violate("C14:offer-after-report", fmt.Sprintf("message %d offered although it has a delivery/error report", me.id), replay)
+				} else if what, ok := reported[me.id]; ok {
+					run.Violate("C14:offer-after-report-filed", fmt.Sprintf("message %d offered for relay although a%s report was filed (and accepted) for it earlier; the queue row no longer shows it", me.id, map[string]string{"error": "n error", "delivery": " delivery"}[what]), replay)
+				}
+				if (me.m.kind == "slc" || me.m.kind == "upl") && me.req && me.fees == nil {
+					run.Violate("C14:offer-without-fees", fmt.Sprintf("fee-paying message %d (elected estimate %d) offered to its assignee #%d without fees", me.id, me.est, p.id[me.assignee]), replay)
 				}
 				for _, o := range rows {
 					if o.id >= me.id {
@@ -1246,6 +1285,19 @@ func doQueue(t *testing.T, run *emit.Run, p *pool, r *rand.Rand, hostile bool) {
 				}
 			}
 			offs = append(offs, emit.List(oid))
+		}
+		// after every step: a fee payer has an elected estimate iff it carries fees (the election is all-or-nothing
+		// per message), and an accepted report never disappears from the row
+		if !foreign {
+			for _, me := range rows {
+				rp := map[string]any{"kind": "queue", "config": cfg, "nv": nv, "steps": append(append([]string{}, steps...), opS), "message": me.id}
+				if (me.m.kind == "slc" || me.m.kind == "upl") && ((me.est > 0) != (me.fees != nil)) {
+					run.Violate("C14:estimate-fees-disagree", fmt.Sprintf("fee-paying message %d (assignee #%d): elected estimate %d but fees %v", me.id, p.id[me.assignee], me.est, me.fees), rp)
+				}
+				if what, ok := reported[me.id]; ok && !me.pad && !me.er {
+					run.Violate("C14:report-lost", fmt.Sprintf("the %s report accepted for message %d is gone from the queue row", what, me.id), rp)
+				}
+			}
 		}
 		// completeness side of the oracle: a message meeting every condition is offered to its assignee
 		if !foreign {
